@@ -21,7 +21,9 @@ import (
 	. "zharness/hz"
 )
 
-func main() { Main(map[string]Runner{"nodereorg": runNodeReorg, "nodecrash": runNodeCrash}) }
+func main() {
+	Main(map[string]Runner{"nodereorg": runNodeReorg, "nodecrash": runNodeCrash, "points": runPoints})
+}
 
 var users = []*wallet.KeyPair{g.User1, g.User2, g.User3, g.User4, g.User5}
 
